@@ -25,8 +25,7 @@ func NewWorld(p *Plan) *World {
 	currentNet = w.Net
 	w.Servers = make([]*rpc.Server, len(p.Servers))
 	w.ServerUp = make([]bool, len(p.Servers))
-	w.listenRet = make([]bool, len(p.Servers))
-	w.listenErr = make([]string, len(p.Servers))
+	w.listenGen = make([]*listenState, len(p.Servers))
 	w.Conns = make([]*rpc.Conn, len(p.Conns))
 	w.ConnPipe = make([]*Pipe, len(p.Conns))
 	for k, sp := range p.Streams {
@@ -326,8 +325,8 @@ func (w *World) checkReply(c *CallRec) {
 		c.ReplyWhy = fmt.Sprintf("reply payload length %d, want %d", len(got.Pad), c.Rep)
 	case !PadOK(got.Pad, RepKey(c.ID)):
 		c.ReplyWhy = "reply payload differs from the handler's output"
-	case int(got.Server)/1000 != w.P.Conns[c.Conn].Server:
-		c.ReplyWhy = fmt.Sprintf("reply from server %d, connection goes to server %d", got.Server/1000, w.P.Conns[c.Conn].Server)
+	case int(got.Server)/1000 != w.wantServer(c):
+		c.ReplyWhy = fmt.Sprintf("reply from server %d, call was addressed to server %d", got.Server/1000, w.wantServer(c))
 	default:
 		c.ReplyOK = true
 	}
@@ -632,4 +631,11 @@ func (w *World) clientsOnConn(conn int) int {
 		}
 	}
 	return n
+}
+
+func (w *World) wantServer(c *CallRec) int {
+	if c.Conn < 0 {
+		return c.Addr
+	}
+	return w.P.Conns[c.Conn].Server
 }
